@@ -79,6 +79,22 @@ static_assert(std::is_same<const_iter_value<decltype(enumerate(svec))>, std::str
 static_assert(std::is_same<const_iter_value<decltype(enumerate(vec))>, int&>::value, "[C20 w35] *const_iterator of enumerate(vector<int>&): value() is int&");
 static_assert(std::is_same<const_iter_value<decltype(enumerate(mp))>, std::pair<const int, int>&>::value, "[C20 w36] *const_iterator of enumerate(map&): value() is pair&");
 static_assert(std::is_same<const_iter_value<decltype(enumerate(cvec))>, const int&>::value, "[C20 w37] *const_iterator of enumerate(const vector&): value() is const int&");
+// whatever further call forms exist (a start offset, a step): handing them a TEMPORARY range yields the owning adaptor, or the form
+// is not available for temporaries at all - never a proxy into a range that dies before the loop body runs
+template <typename R, typename = void>
+struct enumerate_with_offset { using type = void; };
+template <typename R>
+struct enumerate_with_offset<R, decltype(void(enumerate(std::declval<R>(), std::size_t{})))> { using type = decltype(enumerate(std::declval<R>(), std::size_t{})); };
+template <typename R, typename = void>
+struct reverse_with_offset { using type = void; };
+template <typename R>
+struct reverse_with_offset<R, decltype(void(reverse(std::declval<R>(), std::size_t{})))> { using type = decltype(reverse(std::declval<R>(), std::size_t{})); };
+static_assert(std::is_void<enumerate_with_offset<std::vector<int>>::type>::value || std::is_same<enumerate_with_offset<std::vector<int>>::type, nitro::lang::detail::enumerate<std::vector<int>>>::value,
+              "[C20 w38] enumerate(temporary, offset), if it exists, returns the owning adaptor (a proxy would dangle)");
+static_assert(std::is_void<enumerate_with_offset<const std::list<int>>::type>::value || std::is_same<enumerate_with_offset<const std::list<int>>::type, nitro::lang::detail::enumerate<const std::list<int>>>::value,
+              "[C20 w39] enumerate(const temporary, offset), if it exists, returns the owning adaptor");
+static_assert(std::is_void<reverse_with_offset<std::vector<int>>::type>::value || std::is_same<reverse_with_offset<std::vector<int>>::type, nitro::lang::detail::reverse<std::vector<int>>>::value,
+              "[C20 w40] reverse(temporary, offset), if it exists, returns the owning adaptor");
 // built-in arrays of every element type take the array overload (elements are reference_wrappers to the array's own elements)
 const char cchars[4] = { 'a', 0, 'b', 0 };
 char chars[3] = { 'x', 'y', 'z' };
